@@ -5,9 +5,12 @@ Open Scope N_scope.
 (* case value:
    [ flags ; world ; steps ]
    flags = [socks_fixed; traffic_fixed; dns_fixed; notify_fixed; aux]
-   world = [ maps ; codes ; doms ; online ]      maps = [[id;listen;target;socks;sent;recv]..]  codes = [[id;owner;act]..]  doms = [[id;owner]..]
+   world = [ maps ; codes ; doms ; online ; bind([[conn;client]..]) ]      maps = [[id;listen;target;socks;sent;recv]..]  codes = [[id;owner;act]..]  doms = [[id;owner]..]
    step  = [ connkind ; who ; cmd ; resp ; obj? ; tgt? ; dir ; sent ; recv ; valid ; claim ; observed ]
-   observed = [ ok ; maps([[id;l;t;sent;recv]..]) ; codes ; doms ; online ; dm ; dc ; dd ; deliv([[client;type;stamp]..]) ] *)
+           connkind 0 unknown / 1 fresh / 2 pending / 3 long-lived connection #who
+           | [ 4 ; conn ; client ; ... ; observed ]   registry event: connection re-authenticates as client
+           | [ 5 ; conn ; ... ; observed ]            registry event: connection leaves the registry
+   observed = [ ok ; maps([[id;l;t;sent;recv]..]) ; codes ; doms ; online ; dm ; dc ; dd ; deliv([[client;type;stamp]..]) ; bind ] *)
 
 Definition dec_map (v : tval) : mapping :=
   {| m_id := vn (vnth 0 v); m_listen := vn (vnth 1 v); m_target := vn (vnth 2 v); m_socks := vbool (vnth 3 v);
@@ -20,10 +23,11 @@ Definition dec_world (v : tval) : world :=
   let cs := map dec_code (vl (vnth 1 v)) in
   let ds := map dec_dom (vl (vnth 2 v)) in
   {| w_maps := ms; w_codes := cs; w_doms := ds; w_online := map vn (vl (vnth 3 v));
+     w_bind := map (fun e => (vn (vnth 0 e), vn (vnth 1 e))) (vl (vnth 4 v));
      w_nm := lenN ms; w_nc := lenN cs; w_nd := lenN ds |}.
 Definition dec_optn (v : tval) : option N := match vopt v with Some x => Some (vn x) | None => None end.
 Definition dec_kind (v who : tval) : connkind :=
-  match vn v with 0 => KUnknown | 1 => KFresh | 2 => KPending | _ => KAuth (vn who) end.
+  match vn v with 0 => KUnknown | 1 => KFresh | 2 => KPending | _ => KConn (vn who) end.
 Definition dec_cmd (v : tval) : cmd :=
   {| k_type := vn (vnth 2 v); k_resp := vbool (vnth 3 v); k_obj := dec_optn (vnth 4 v); k_tgt := dec_optn (vnth 5 v);
      k_dir := vn (vnth 6 v); k_sent := vn (vnth 7 v); k_recv := vn (vnth 8 v); k_valid := vbool (vnth 9 v) |}.
@@ -35,6 +39,7 @@ Definition proj_map (m : mapping) : list N := [m_id m; m_listen m; m_target m; m
 Definition proj_code (c : code) : list N := [c_id c; c_owner c; c_act c].
 Definition proj_dom (d : domain) : list N := [d_id d; d_owner d].
 Definition proj_deliv (x : cid * N * cid) : list N := let '(t, ty, s) := x in [t; ty; s].
+Definition proj_bind (x : N * cid) : list N := [fst x; snd x].
 Definition rows_eqb (a : list (list N)) (b : list tval) : bool := all2 (fun x y => list_eqb x (map vn (vl y))) a b.
 
 Definition obs_matches (r : result) (o : tval) : bool :=
@@ -46,10 +51,15 @@ Definition obs_matches (r : result) (o : tval) : bool :=
   && list_eqb (res_dm r) (map vn (vl (vnth 5 o)))
   && list_eqb (res_dc r) (map vn (vl (vnth 6 o)))
   && list_eqb (res_dd r) (map vn (vl (vnth 7 o)))
-  && rows_eqb (map proj_deliv (res_deliv r)) (vl (vnth 8 o)).
+  && rows_eqb (map proj_deliv (res_deliv r)) (vl (vnth 8 o))
+  && rows_eqb (map proj_bind (w_bind (res_world r))) (vl (vnth 9 o)).
 
 Definition step_result (tbl : list row) (w : world) (s : tval) : result :=
-  exec tbl w (dec_kind (vnth 0 s) (vnth 1 s)) (vn (vnth 10 s)) (dec_cmd s).
+  match vn (vnth 0 s) with
+  | 4 => mk true (apply_event (EvReauth (vn (vnth 1 s)) (vn (vnth 2 s))) w)
+  | 5 => mk true (apply_event (EvRemove (vn (vnth 1 s))) w)
+  | _ => exec tbl w (dec_kind (vnth 0 s) (vnth 1 s)) (vn (vnth 10 s)) (dec_cmd s)
+  end.
 
 Fixpoint run_steps (tbl : list row) (w : world) (ss : list tval) : bool :=
   match ss with
@@ -64,7 +74,8 @@ Definition enc_rows (l : list (list N)) : tval := VL (map (fun r => VL (map VN r
 Definition enc_result (r : result) : tval :=
   VL [vN_of_bool (res_ok r); enc_rows (map proj_map (w_maps (res_world r))); enc_rows (map proj_code (w_codes (res_world r)));
       enc_rows (map proj_dom (w_doms (res_world r))); VL (map VN (w_online (res_world r)));
-      VL (map VN (res_dm r)); VL (map VN (res_dc r)); VL (map VN (res_dd r)); enc_rows (map proj_deliv (res_deliv r))].
+      VL (map VN (res_dm r)); VL (map VN (res_dc r)); VL (map VN (res_dd r)); enc_rows (map proj_deliv (res_deliv r));
+      enc_rows (map proj_bind (w_bind (res_world r)))].
 Fixpoint predict_steps (tbl : list row) (w : world) (ss : list tval) : list tval :=
   match ss with
   | [] => []
